@@ -112,3 +112,13 @@ Theorem C03_foreign_pipeline : forall (untext : bytes -> option json) decompress
       = (total blocks, FOk).
 Proof. exact foreign_pipeline. Qed.
 Print Assumptions C03_foreign_pipeline.
+
+(* What a record, enum or fixed is called - name and namespace, at any depth of the writer's
+   schema - plays no part in reading: rename every named type by an arbitrary function of
+   (name, namespace) and the reader builds the same codec for every target type.  (A file
+   written by NewEncoderFor[T] is read into any compatible type, whatever that type is called.) *)
+Require Import Avro.Proofs.NamesP.
+Theorem C03_names_play_no_part : forall rho g t,
+  classify (gs_rename rho g) = classify g /\ build_top (gs_rename rho g) t = build_top g t.
+Proof. intros rho g t. exact (conj (classify_rename rho g) (build_top_rename rho g t)). Qed.
+Print Assumptions C03_names_play_no_part.
